@@ -30,7 +30,7 @@ pub enum Case {
 
 fn exposed_before_integrity(msg: &Message) -> Vec<(u16, Vec<u8>)> {
     let mut out = vec![];
-    for a in msg.iter_attributes().take(4096) {
+    for a in msg.iter_attributes().take(40_000) {
         let t = a.get_type().value();
         if t == T_MI || t == T_SHA256 {
             break;
@@ -358,6 +358,35 @@ pub fn run(ctx: &Ctx) -> EvidenceMeta {
         },
     ];
     ctx.enumerate("fixed-prefixes", &fixed, test);
+    // count scale: n tiny attributes in front of every tail, n next to the powers of two and the round
+    // decimal numbers a table size, an index width or an added "sanity limit" would have (a 16-bit
+    // body holds up to 16 383 attributes)
+    {
+        let mut items = vec![];
+        let bases: &[usize] = if ctx.quick() {
+            &[16, 64, 100, 256, 1000, 1024, 4096, 10_000, 16_000]
+        } else {
+            &[8, 16, 20, 32, 48, 50, 64, 100, 128, 200, 250, 255, 256, 300, 400, 500, 512, 750, 1000, 1024, 1500, 2000, 2048, 2500, 3000, 4000, 4096, 5000, 8000, 8192, 10_000, 12_000, 16_000, 16_360]
+        };
+        for &base in bases {
+            for n in base - if ctx.quick() { 1 } else { 2 }..=base + if ctx.quick() { 1 } else { 2 } {
+                let prefix: Vec<WireAttr> = (0..n)
+                    .map(|i| WireAttr::Plain {
+                        ty: if i % 2 == 0 { 0x4000 + (i % 0x3000) as u16 } else { 0xC100 + (i % 0x3000) as u16 },
+                        value: Hex(vec![]),
+                        pad: 0,
+                    })
+                    .collect();
+                items.push(Case::Prefix {
+                    mtype: 1,
+                    tid: n as u128,
+                    prefix,
+                    creds: Creds::Short { password: "count".into() },
+                });
+            }
+        }
+        ctx.enumerate("count-sweep-x-all-tails", &items, test);
+    }
     ctx.proptest(
         "prefix-x-all-tails",
         ctx.n(3_000, 100_000),
